@@ -84,7 +84,7 @@ def gen(tier, rng):
                 elif k in cur_keys:
                     ops.pop()
             elif r < 0.92:
-                kind = rng.choice(["ok", "ok", "ok", "wrong_n", "wrong_len", "perm_len", "unaligned"])
+                kind = rng.choice(["ok", "ok", "ok", "wrong_n", "wrong_len", "perm_len", "unaligned", "pair", "pair_bad"])
                 nk = rng.choice([3, rng.choice(cur_keys) if cur_keys else 3])
                 if kind == "ok":
                     new = [_rand_member(rng, nk, n_al)]
@@ -93,6 +93,17 @@ def gen(tier, rng):
                 elif kind == "wrong_n":
                     new = [_rand_member(rng, nk, max(1, (n_al + 1) % 4))]
                     new_al = True
+                elif kind in ("pair", "pair_bad") and n_al >= 1:
+                    # two new members at once, with the same aligned axes given ONCE for both (the short form); in the
+                    # bad variant the second member does not fit
+                    m1 = _rand_member(rng, nk, n_al)
+                    m2 = {"key": 2 if nk != 2 else 1, "shape": list(m1["shape"]), "al": list(m1["al"]), "seq": False}
+                    for a in range(len(m2["shape"])):
+                        if a not in m2["al"]:
+                            m2["shape"][a] = OTHER_LENS[(a + 1) % 3]
+                    if kind == "pair_bad":
+                        m2["shape"][m2["al"][-1]] += 1
+                    new, new_al = [m1, m2], True
                 elif kind == "perm_len":
                     # the right lengths, but along the wrong aligned axes (the same multiset in another order)
                     new = [_rand_member(rng, nk, max(2, n_al))]
@@ -108,9 +119,10 @@ def gen(tier, rng):
                 else:
                     new = [_rand_member(rng, nk, 0)]
                     new_al = False
-                ops.append(["update", new, new_al, rng.choice(["pairs", "collection"])])
-                if nk not in cur_keys:
-                    cur_keys = cur_keys + [nk]
+                ops.append(["update", new, new_al, rng.choice(["pairs", "collection"]) if len(new) == 1 else "short"])
+                for m_ in new:
+                    if m_["key"] not in cur_keys:
+                        cur_keys = cur_keys + [m_["key"]]
             else:
                 ops.append(["refused", rng.choice(["setitem", "setdefault", "popitem", "mixed"])])
         key = f"{members}|{ops}"
@@ -213,7 +225,11 @@ def run(case):
                 del coll[KEYS[op[1]]]
             elif op[0] == "update":
                 new, new_al, form = op[1], op[2], op[3]
-                if form == "collection":
+                if form == "short":
+                    pairs = [(KEYS[m["key"]], _mk_member(m, m["key"])) for m in new]
+                    al0 = tuple(new[0]["al"])
+                    coll.update(pairs, al0[0] if len(al0) == 1 and len(case["key"]) % 2 else al0)
+                elif form == "collection":
                     coll.update(_mk_coll(new, new_al))
                 else:
                     pairs = [(KEYS[m["key"]], _mk_member(m, m["key"])) for m in new]
@@ -314,7 +330,10 @@ def _valid(op, st):
         m0 = st["members"][0]
         if len(new[0]["al"]) != len(m0[2]):
             return False
-        return [new[0]["shape"][a] for a in new[0]["al"]] == [m0[1][a] for a in m0[2]]
+        lens0 = [new[0]["shape"][a] for a in new[0]["al"]]
+        if any([m["shape"][a] for a in m["al"]] != lens0 for m in new[1:]):
+            return False                      # the new members do not even agree with one another
+        return lens0 == [m0[1][a] for a in m0[2]]
     return False
 
 
@@ -377,6 +396,9 @@ def _coq_op(op):
     if op[0] == "del":
         return f"(CDel {Q.z(op[1])})"
     if op[0] == "update":
+        lens0 = [op[1][0]["shape"][a] for a in op[1][0]["al"]]
+        if any([m["shape"][a] for a in m["al"]] != lens0 for m in op[1][1:]):
+            return "CRefused"                 # (mutual consistency of the new members is the constructor's check, not the model's)
         new = [[m["key"], m["shape"], m["al"], m.get("seq", False)] for m in op[1]]
         return f"(CUpdate {Q.lst([_coq_member(m) for m in new])} {Q.b(op[2])})"
     return "CRefused"
